@@ -386,8 +386,12 @@ namespace sim
          // the coverage map is filled rule by rule right before a rule's first hooks, with the facility's own
          // coverage_insert<>, instead of by visit<>() over the whole wired rule graph (quadratic compile time)
          {
-            Suspend sp;
-            pegtl::internal::coverage_insert< Rule >::visit( *g_cov_result );
+            static std::uint64_t inserted_in_run = 0;  // once per rule and run
+            if( inserted_in_run != W.run_generation ) {
+               inserted_in_run = W.run_generation;
+               Suspend sp;
+               pegtl::internal::coverage_insert< Rule >::visit( *g_cov_result );
+            }
          }
 #endif
          try {
